@@ -2,6 +2,9 @@
 use crate::evidence::{Ctx, Report};
 
 pub mod c01;
+pub mod c02;
+pub mod c03;
+pub mod c04;
 pub mod c05;
 pub mod c06;
 pub mod c15;
@@ -18,6 +21,9 @@ pub fn run(ctx: &Ctx) -> Option<Report> {
         "C12" => Some(c12::run(ctx)),
         "C13" => Some(c13::run(ctx)),
         "C15" => Some(c15::run(ctx)),
+        "C02" => Some(c02::run(ctx)),
+        "C03" => Some(c03::run(ctx)),
+        "C04" => Some(c04::run(ctx)),
         _ => None,
     }
 }
